@@ -1,6 +1,8 @@
 SPECIFICATION TSpec
 CONSTANTS
   Impl = "fresh"
+  DecImpl = "copy"
+  Sides = {}
   Objs = {}
   TextOf = {}
   MaxOps = 0
